@@ -531,7 +531,8 @@ def report(mod, modname, pid, tier, seed, cases, results, findings, timeout, cap
     )
     if broken:
         _out(f"BROKEN property={pid}: {broken}")
-        return 2
+        if not confirmed:
+            return 2
     return 1 if confirmed else 0
 
 
